@@ -1417,6 +1417,11 @@ protected:
   }
 
 
+  /// Whether the reformulation of \a con is postponed
+  /// until all contexts are known (e.g., map conversions.)
+  template <class Constraint>
+  bool DefersConversion(const Constraint& ) { return false; }
+
   /// MapErase.
   /// Forget the map entry equal to \a con, if any.
   template <class Constraint>
